@@ -14,7 +14,7 @@ ENGINES = [
          kind_free_text="E1: crash-isolating forked children (death attributed to the exact case), RLIMIT_AS memory allowance"),
     dict(name="rustext", path="vf/rustext.py", serves_properties=["C03", "C15"],
          kind_free_text="rebuilds the PyO3 crates from the working tree (cargo --offline) and loads them ahead of stale .so files; pure-Python twin loader"),
-    dict(name="interpose", path="vf/interpose.py", serves_properties=["C07", "C09"],
+    dict(name="interpose", path="vf/interpose.py", serves_properties=["C07", "C08", "C09"],
          kind_free_text="E2: Python-level syscall interposer with three policies: deterministic baton scheduler + DFS schedule explorer, crash snapshots, fault injection"),
     dict(name="cgit", path="vf/cgit.py", serves_properties=["C20", "C03"],
          kind_free_text="hermetic C git 2.39.5 subprocess oracle (differential)"),
@@ -23,6 +23,14 @@ NOTES = ("Run ./check <ID> quick|thorough from /verif.  Exit 0/1/2 = held / VIOL
          "known_findings.json lists repaired defects (status fixed, regression inputs) and open findings.")
 NOT_APPLICABLE = {}
 CHECKS = {
+    "C08": dict(
+        level="exploration",
+        engine="vf+interpose",
+        technique="deterministic schedule exploration (all schedules with <=1 preemption, DFS with bound 2-3 under a cap, seeded random preemption placements) of 2-3 actors with private Repo instances; oracle = Wing-Gong linearizability search against a dict model of the ref store + commit-ancestry and reader invariants",
+        text="For every initial layout of the contended branch (absent / loose / packed / loose over stale packed) and every pair from a 13-operation catalogue (conditional and unconditional updates, creations, deletions, reads, listings, pack_refs, work-tree commits; plus two-op and three-actor programs) the recorded history must be explainable by some serial order consistent with real time in which each result is the model's, a failed operation is a no-op, a commit's parents are the branch value at its linearization point and the final refs equal the model's; readers never see values that were never written and bystander refs never disappear; all successful commits are in the final history.",
+        design_ref="DESIGN.md §4 C08, §3 E2",
+        note="interleavings at Python-level FS-call granularity on refs/, packed-refs and HEAD; listings judged per ref (no snapshot semantics demanded); one open known finding (deleted ref resurrected by a concurrent pack_refs)",
+    ),
     "C01": dict(
         level="exploration",
         technique="model-based op sequences (every public setter/observer order) + round trip against an independent git-grammar serialiser that is validated by C git (hash-object, fsck --strict, mktree, fast-import, commit-tree, mktag) in every run",
